@@ -486,23 +486,17 @@ compute_image_info (pixman_image_t *image)
 	code = PIXMAN_unknown;
 
 	/*
-	 * As explained in pixman-radial-gradient.c, every point of
-	 * the plane has a valid associated radius (and thus will be
-	 * colored) if and only if a is negative (i.e. one of the two
-	 * circles contains the other one).
+	 * When one of the two circles contains the other one (a < 0),
+	 * every point of the plane has a valid associated radius and is
+	 * coloured - in exact arithmetic.  radial_get_scanline() evaluates
+	 * the quadratic in floating point, and where the radius is close
+	 * to 0 (e.g. at the common centre of concentric circles) rounding
+	 * can lose the root, leaving the pixel transparent; under a
+	 * projective transform a pixel whose homogeneous coordinate is 0
+	 * is left transparent as well.  So a radial gradient is never
+	 * reported as opaque.
 	 */
-
-        if (image->radial.a >= 0)
-	    break;
-
-	/* Under a projective transform a pixel whose homogeneous
-	 * coordinate is 0 has no position at all and is left transparent
-	 * by radial_get_scanline(), whatever the circles are.
-	 */
-	if (!(flags & FAST_PATH_AFFINE_TRANSFORM))
-	    break;
-
-	/* Fall through */
+	break;
 
     case CONICAL:
     case LINEAR:
